@@ -7,6 +7,11 @@ cfgs = {}
 for p in glob.glob(os.path.join(V, "checks", "C*.json")):
     c = json.load(open(p))
     cfgs[c["property"]] = c
+# checks that exist but are not claimed yet (one property id per line in checks/unclaimed.txt)
+_u = os.path.join(V, "checks", "unclaimed.txt")
+if os.path.exists(_u):
+    for pid in open(_u).read().split():
+        cfgs.pop(pid, None)
 na_reasons = {}
 p = os.path.join(V, "checks", "not_applicable.json")
 if os.path.exists(p):
